@@ -98,6 +98,8 @@ def check(run, replay_case=None):
         for i in range(n_trials):
             focus = ['limit', 'limit', 'hr', 'validators', 'comparator', 'mix'][i % 6]
             plans.append(make_plan(rng, [2, 4, 8, 16][i % 4], focus))
+            # the 512 MiB container-block probe at the default limit is affordable only now and then
+            plans[-1]['heavy'] = (i % 10 == 0) or not run.quick()
             foci.append(focus)
     jobs = [(run.workdir, i, p) for i, p in enumerate(plans)]
     with ThreadPoolExecutor(max_workers=12) as ex:
